@@ -633,6 +633,10 @@ pub fn add_dev_classes(suite: &str, rng: &mut Rng, sink: &mut Sink, thorough: bo
             let op = if i % 2 == 0 { gen_nb_held_queue(suite, region, rng) } else { gen_dev_held_queue(suite, region, rng, i % 4 == 1) };
             sink.case(&op, &eval(&op), "held-downlink-queue", true);
         }
+        for i in 0..(if thorough { 60 } else { 6 }) {
+            let op = gen_join_rxc_noise(suite, region, rng, i);
+            sink.case(&op, &eval(&op), "join-rxc-noise", true);
+        }
     }
 }
 
@@ -794,7 +798,7 @@ pub fn oracle_c05_dev(op: &str, outs: &[String]) -> String {
 
 /// every device-level oracle that applies to the async front-end, in one
 pub fn oracle_dev_all(op: &str, outs: &[String]) -> String {
-    for f in [oracle_c04_dev as fn(&str, &[String]) -> String, oracle_c06_dev, oracle_c10_dev, oracle_c05_dev] {
+    for f in [oracle_c04_dev as fn(&str, &[String]) -> String, oracle_c06_dev, oracle_c10_dev, oracle_c05_dev, oracle_c07_join_twin] {
         let r = f(op, outs);
         if r != "ok" {
             return r;
@@ -1008,4 +1012,121 @@ pub fn gen_dev_held_queue(suite: &str, region: &str, rng: &mut Rng, class_c: boo
     h.ev("take");
     h.ev("snap");
     h.done()
+}
+
+
+// ------------------------------------------------------------ joining Class C device, frames between the windows
+
+/// an OTAA join of a CLASS C device that hears frames on the RXC parameters between TX and RX1 and/or
+/// between RX1 and RX2 (junk, a JoinAccept under another key, even the authentic JoinAccept on the
+/// wrong parameters); the authentic JoinAccept arrives in RX1, in RX2, or not at all.  Script items are
+/// consumed one per radio call: tx, srx(c), rxc…, srx(s), rxs, srx(c) [, srx(c), rxc…, srx(s), rxs, srx(c)].
+pub fn gen_join_rxc_noise(suite: &str, region: &str, rng: &mut Rng, variant: usize) -> String {
+    let mut h = AHist::new(suite, region, rng.next() & 0xffffff, *rng.pick(&[0u32, 15]), 40, true, *rng.pick(&[57u32, 400]));
+    let devaddr = 0x0100_0000 + (rng.next() as u32 & 0xffffff);
+    let cf = some_cflist(rng, region);
+    let acc = build_join_accept(&ROOT_KEY, devaddr, rng.next() as u8, rng.next() as u8 & 0x0f, &cf);
+    let bad = build_join_accept(&OTHER_KEY, devaddr, 0, 0, &CfDesc::None);
+    let noise = |h: &AHist, rng: &mut Rng, n: usize| -> Vec<String> {
+        let mut v = vec![];
+        for _ in 0..n {
+            let it = match rng.below(4) {
+                0 => h.frame_item(0, &bad, None),
+                1 => h.frame_item(2, &acc, None),
+                _ => {
+                    let nb = 1 + rng.below(24) as usize;
+                    let b = rng.bytes(nb);
+                    h.frame_item(-3, &b, None)
+                }
+            };
+            v.push(it);
+        }
+        v
+    };
+    // where the noise is, where the JoinAccept is
+    let (n1, n2) = match variant % 3 {
+        0 => (1 + rng.below(2) as usize, 0),
+        1 => (0, 1 + rng.below(2) as usize),
+        _ => (1, 1),
+    };
+    let accept_in = (variant / 3) % 3; // 0: RX1, 1: RX2, 2: nowhere
+    let mut script: Vec<String> = vec!["O".into(), "O".into()]; // tx, srx(c)
+    script.extend(noise(&h, rng, n1));
+    script.push("O".into()); // rxc: the timer wins
+    script.push("O".into()); // srx(s) RX1
+    script.push(if accept_in == 0 { h.frame_item(4, &acc, None) } else { "O".into() }); // rxs RX1
+    script.push("O".into()); // window_complete: srx(c)
+    script.push("O".into()); // between: srx(c)
+    script.extend(noise(&h, rng, n2));
+    script.push("O".into()); // rxc
+    script.push("O".into()); // srx(s) RX2
+    script.push(if accept_in == 1 { h.frame_item(4, &acc, None) } else { "O".into() }); // rxs RX2
+    script.push("O".into());
+    let e = format!("ajoin | {}", script.join(" "));
+    h.ev(&e).ev("snap");
+    h.asend(1, false, &[1], &[]).ev("snap");
+    h.done()
+}
+
+/// C07 twin oracle for join procedures of the async front-end: every frame an `ajoin` heard in an
+/// `rx_continuous` call (between the windows; a device without a session accepts none of them) is
+/// deleted from the script and the history is run again on the real front-end: the join's answer, the
+/// windows it opened, and every other output must be identical.
+pub fn oracle_c07_join_twin(op: &str, outs: &[String]) -> String {
+    let (hd, evs) = crate::macsuites::split_events(op);
+    if hd.split_whitespace().nth(7) != Some("1") {
+        return "ok".into();
+    }
+    let mut twin_evs = evs.clone();
+    let mut touched: Vec<usize> = vec![];
+    for (i, ev) in evs.iter().enumerate() {
+        if !ev.starts_with("ajoin") {
+            continue;
+        }
+        let out = match outs.get(i) {
+            Some(o) => o,
+            None => break,
+        };
+        let calls: Vec<&str> = out.strip_prefix("calls=").and_then(|s| s.split(" => ").next()).unwrap_or("").split(';').collect();
+        let script: Vec<&str> = ev.split_once('|').map(|(_, b)| b.split_whitespace().collect()).unwrap_or_default();
+        let mut idx = 0usize;
+        let mut drop: Vec<usize> = vec![];
+        for c in calls {
+            let consumes = c.starts_with("tx(") || c.starts_with("srx(") || c == "rxc" || c == "rxs" || c == "lp";
+            if !consumes {
+                continue;
+            }
+            if c == "rxc" && script.get(idx).map(|t| t.starts_with('R')).unwrap_or(false) {
+                drop.push(idx);
+            }
+            idx += 1;
+        }
+        if drop.is_empty() {
+            continue;
+        }
+        let kept: Vec<&str> = script.iter().enumerate().filter(|(k, _)| !drop.contains(k)).map(|(_, t)| *t).collect();
+        twin_evs[i] = format!("ajoin | {}", kept.join(" "));
+        touched.push(i);
+    }
+    if touched.is_empty() {
+        return "ok".into();
+    }
+    let twin_op = format!("{} ; {}", hd, twin_evs.join(" ; "));
+    let twin = crate::adev::run_history(&twin_op);
+    // the windows a join opened: the single-shot `srx(..,s<ms>)` calls, in order
+    let windows = |o: &str| -> Vec<String> {
+        o.strip_prefix("calls=").and_then(|s| s.split(" => ").next()).unwrap_or("").split(';').filter(|c| c.starts_with("srx(") && !c.ends_with(",c)")).map(|c| c.to_string()).collect()
+    };
+    for i in 0..outs.len().max(twin.len()) {
+        let (a, b) = (outs.get(i).map(|s| s.as_str()).unwrap_or("-"), twin.get(i).map(|s| s.as_str()).unwrap_or("-"));
+        if touched.contains(&i) {
+            let res = |o: &str| o.split(" => ").nth(1).unwrap_or("?").to_string();
+            if res(a) != res(b) || windows(a) != windows(b) {
+                return format!("FAIL:join-twin-differs-at-{}:{}/{}", i, res(a).replace(' ', "_"), res(b).replace(' ', "_"));
+            }
+        } else if a != b {
+            return format!("FAIL:twin-differs-after-join-at-{}", i);
+        }
+    }
+    "ok".into()
 }
